@@ -219,6 +219,15 @@ func c11Tapes(w *W) []*serTape {
 	sb.WriteString("0.5]")
 	pj, docs = mustParse(w, sb.String(), false, cp)
 	add("20k-values", pj, docs, true)
+	// more than 1 MiB of value bytes (the S2 stream is re-blocked into 1 MiB chunks)
+	sb.Reset()
+	sb.WriteByte('[')
+	for i := 0; i < 140000; i++ {
+		fmt.Fprintf(&sb, "%d,", i*31-70000)
+	}
+	sb.WriteString("0.25]")
+	pj, docs = mustParse(w, sb.String(), false, cp)
+	add("140k-values", pj, docs, true)
 	sb.Reset()
 	sb.WriteString("[[")
 	for i := 0; i < 40000; i++ {
@@ -254,7 +263,7 @@ func (o serOp) str(ts []*serTape, blobs []blob) string {
 	case 1:
 		return "CompressMode(" + modeNames[o.A] + ")"
 	}
-	dst := []string{"nil", "reused dst", "dst previously filled by a larger tape"}[o.Dst]
+	dst := []string{"nil", "reused dst", "dst previously filled by a larger tape", "dst = parsed [\"a\",2] whose string was replaced by a 360-byte one"}[o.Dst]
 	if o.A < 0 {
 		return "Deserialize(last blob, " + dst + ")"
 	}
@@ -322,6 +331,23 @@ func runSerHistory(ts []*serTape, blobs []blob, hist []serOp, collect *[]blobRec
 					}
 				}
 				dst = big.pj.Clone(nil)
+			case 3:
+				// a tiny parsed document whose string buffer was grown by an edit: small Message
+				// capacity, large Strings capacity
+				tiny, perr := simdjson.Parse([]byte(`["a",2]`), nil)
+				if perr != nil {
+					return "cannot parse the tiny destination: " + perr.Error(), "harness"
+				}
+				it := tiny.Iter()
+				it.AdvanceInto()
+				it.AdvanceInto()
+				if it.AdvanceInto() != simdjson.TagString {
+					return "tiny destination: string not found", "harness"
+				}
+				if serr := it.SetString(strings.Repeat("grown ", 60)); serr != nil {
+					return "tiny destination: " + serr.Error(), "harness"
+				}
+				dst = tiny
 			}
 			out, err, p := deserialize(s, src, dst)
 			if p != "" {
@@ -412,7 +438,7 @@ func c11Body(w *W) {
 	for m := 0; m < 4; m++ {
 		alpha = append(alpha, serOp{Kind: 1, A: m})
 	}
-	for dst := 0; dst < 3; dst++ {
+	for dst := 0; dst < 4; dst++ {
 		alpha = append(alpha, serOp{Kind: 2, A: -1, Dst: dst})
 	}
 	for bi, b := range blobs {
@@ -427,7 +453,7 @@ func c11Body(w *W) {
 	if w.Thorough() {
 		depth = 4
 	}
-	w.Note(fmt.Sprintf("histories: every sequence of <= %d operations over %d ops {Serialize(9 small tapes incl. two with strings colliding in the dedup table), CompressMode(4), Deserialize(last blob | any of %d pre-made blobs, dst in {nil, reused, previously larger})} on one reused Serializer and destination; each history runs on a fresh Serializer (prefix replay)", depth, len(alpha), len(alpha)-len(small)-4-3))
+	w.Note(fmt.Sprintf("histories: every sequence of <= %d operations over %d ops {Serialize(9 small tapes incl. two with strings colliding in the dedup table), CompressMode(4), Deserialize(last blob | any of %d pre-made blobs, dst in {nil, reused, previously larger, tiny parsed document with a grown string buffer})} on one reused Serializer and destination; each history runs on a fresh Serializer (prefix replay)", depth, len(alpha), len(alpha)-len(small)-4-3))
 	report := func(hist []serOp, what, fp string) {
 		var parts []string
 		for _, o := range hist {
